@@ -236,6 +236,14 @@ theorem c20_expire_sorted (now : Int) (l : DL) (h : l.wf)
   simp only [expireList]
   rw [h1, h, List.filter_reverse]; simp
 
+/-- **One retention.**  On a history built under a clock that does not step backwards, what the
+hourly expiry keeps at time `now` is exactly what a save + restart at `now` brings back: there is a
+single notion of "older than the retention", whichever path applies it. -/
+theorem c20_load_expire_agree (now : Int) (l : DL) (h : l.wf)
+    (hs : l.snapshot.Pairwise (fun a b => b.createTime ≤ a.createTime)) :
+    (expireList now l).snapshot = (loadList now l.snapshot).snapshot := by
+  rw [c20_expire_sorted now l h hs, loadList_snapshot]
+
 /-- every list of every recorder state reachable from an empty recorder by recording, restarting
 and expiring is consistent, so `c20_expire` applies to all of them -/
 theorem c20_reachable_wf (ops : List RecOp) :
